@@ -251,6 +251,9 @@ def _pending(cx, add):
 
 # -------------------------------------------------------------------------------------- R14e (= R10b, R10d)
 def cache_rules(cx, repo, add, rule_b="R14e", rule_d="R14e"):
+    from sa.inline import inlined
+    add_orig = add
+    add, _inl = inlined(repo.mod(REL), add)
     # reset of _cache dominated store loop
     store_loop = next((l for l in add.body if isinstance(l, ast.For) and any(isinstance(n, ast.Subscript) and isinstance(n.ctx, ast.Store) and norm(n.value) == "self.syntax_map" for n in ast.walk(l))), None)
     cx.need(store_loop is not None, rule_b, add, "loop storing new items")
@@ -278,12 +281,23 @@ def cache_rules(cx, repo, add, rule_b="R14e", rule_d="R14e"):
                 if c is not None and c.name == "ColorsConfig":
                     ok = f is not None and f.name in ("__init__", "add_new_items")
                     cx.ob(rule_b, n, ok, f"cache (re)created in {f.name}" if ok else f"cache replaced in {f.name if f else '?'}")
-    # resolve() callers: only add_new_items and the description's own constructor
+    # resolve() callers: only add_new_items (and private helpers of the configuration that are called from nowhere else) and the
+    # description's own constructor
+    conf_cls = enclosing(add_orig, (ast.ClassDef,))
+    registration = {add_orig.name}
+    grew = True
+    while grew:
+        grew = False
+        for h in [f_ for f_ in conf_cls.body if isinstance(f_, FUNC) and f_.name.startswith("_") and not f_.name.startswith("__") and f_.name not in registration]:
+            sites = [c for m_ in repo.modules.values() for c in ast.walk(m_.tree) if isinstance(c, ast.Attribute) and c.attr == h.name]
+            if sites and all(enclosing_func(c) is not None and enclosing_func(c).name in registration and enclosing(enclosing_func(c), (ast.ClassDef,)) is conf_cls for c in sites):
+                registration.add(h.name)
+                grew = True
     for m in repo.modules.values():
         for n in ast.walk(m.tree):
             if isinstance(n, ast.Call) and call_name(n) == "resolve" and isinstance(n.func, ast.Attribute):
                 f = enclosing_func(n)
-                ok = f is add or (f is not None and f.name == "__init__" and enclosing(f, (ast.ClassDef,)).name == "_ColorConfColorDescr")
+                ok = (f is not None and f.name in registration and enclosing(f, (ast.ClassDef,)) is conf_cls) or (f is not None and f.name == "__init__" and enclosing(f, (ast.ClassDef,)).name == "_ColorConfColorDescr")
                 cx.ob(rule_b, n, ok, "items are resolved only during registration" if ok else f"an item is resolved in {f.name if f else '?'} (colour changes without a cache reset)")
     # color_fmt writers
     for m in repo.modules.values():
@@ -308,7 +322,22 @@ def cache_rules(cx, repo, add, rule_b="R14e", rule_d="R14e"):
     # any_modifications is set where an item is stored and where something gets resolved
     sets = [s for s in walk_local(add) if isinstance(s, ast.Assign) and is_name(s.targets[0], "any_modifications") and const(s.value, bool) and s.value.value is True]
     in_store = any(s in list(ast.walk(store_loop)) for s in sets)
-    on_resolved = any(any(is_name(e, "new_resolved") and pol for e, pol in facts(s)) for s in sets)
+    # outside the store loop the flag must be raised when something got resolved: it is guarded by a variable that is updated
+    # (set True / added to) inside a loop that contains a resolve() call
+    res_calls = [c for c in walk_local(add) if isinstance(c, ast.Call) and call_name(c) == "resolve"]
+    res_loops = {id(l) for c in res_calls for l in enclosing_loops(c)}
+    on_resolved = False
+    others = [s for s in sets if s not in list(ast.walk(store_loop))]
+    for s in others:
+        for e, pol in facts(s):
+            if isinstance(e, ast.Name) and pol:
+                ups = [u for u in walk_local(add) if (isinstance(u, ast.Assign) and any(is_name(t, e.id) for t in u.targets) and not (const(u.value, bool) and u.value.value is False) and not isinstance(u.value, (ast.Set, ast.List, ast.Call)))
+                       or (isinstance(u, ast.Call) and isinstance(u.func, ast.Attribute) and is_name(u.func.value, e.id) and u.func.attr in ("add", "update", "append", "extend"))
+                       or (isinstance(u, ast.AugAssign) and is_name(u.target, e.id))]
+                if any(id(l) in res_loops for u in ups for l in enclosing_loops(u)):
+                    on_resolved = True
+    if in_store and others and not on_resolved:
+        raise AnalysisError(rule_d, f"{REL}::ColorsConfig.add_new_items", "how the modification flag follows newly resolved items is not recognised")
     cx.ob(rule_d, add, in_store and on_resolved, "the modification flag is raised for new items and for newly resolved items" if in_store and on_resolved else
           "the modification flag misses new items or newly resolved items", stmt="any_modifications")
     setg = cx.func(REL, "set_global_colors_config", rule_d)
